@@ -142,12 +142,19 @@ def flow_cfg(name, ncfg, maxseg, ticks, first, later):
     return p
 
 
-def flow_script(hist, cfg, mode, t04, move_kind):
-    """script executing a history of segments (sw, n) on slot 1 (moving to slot 2 between segments if asked)"""
+def flow_script(hist, cfg, mode, t04, move_kind, order_seed=0, scale_e2=0):
+    """script executing a history of segments (sw, n) on slot 1 (moving to slot 2 between segments if asked).
+    The five switches reach their values through a seeded order of setter calls, with decoy calls first (the final
+    setting must not depend on the order in which the setters were called); scale_e2 != 0 multiplies the initial
+    state by 2^scale_e2 and asks for a purely relative tolerance (only for switch sets without source terms)."""
+    import random as _r
+    rng = _r.Random(order_seed)
     nx, nsun, nrhos, nsc = cfg
     cmds = ["QUIET 1", "NEW 1 %d %d %d %d %d" % (nx, nsun, nrhos, nsc, t04)] + mode_cmds(1, mode, ticks=max([1] + [n for _, n in hist]))
+    if scale_e2:
+        cmds += ["SCALE 1 %d" % scale_e2, "TOL 1 %s 1e-300" % ("1e-8" if mode[0] == "rk2" else "1e-10")]
     cur = 1
-    prev = 0
+    prev = None
     for si, (sw, n) in enumerate(hist):
         if si > 0 and move_kind:
             if move_kind == 1:
@@ -156,10 +163,22 @@ def flow_script(hist, cfg, mode, t04, move_kind):
                 cmds += ["NEW 2 1 2 1 0 0", "MOVEASSIGN 2 1"]
             cur = 2
             move_kind = 0
-        for k in range(1, 6):
-            b = (sw >> (k - 1)) & 1
-            if b != ((prev >> (k - 1)) & 1) or si == 0:
+        bits = [(k, (sw >> (k - 1)) & 1) for k in range(1, 6)]
+        if prev is None:
+            decoy = list(bits); rng.shuffle(decoy)
+            for k, b in decoy[:rng.randrange(0, 6)]:
+                cmds.append("SW %d %d %d" % (cur, k, 1 - b))           # decoy: the opposite value first
+            order = list(bits); rng.shuffle(order)
+            for k, b in order:
                 cmds.append("SW %d %d %d" % (cur, k, b))
+        else:
+            changed = [(k, b) for k, b in bits if b != ((prev >> (k - 1)) & 1)]
+            rng.shuffle(changed)
+            for k, b in changed:
+                cmds.append("SW %d %d %d" % (cur, k, b))
+        # re-assert one switch that is already at its value (a setter call that changes nothing must change nothing)
+        k, b = bits[rng.randrange(5)]
+        cmds.append("SW %d %d %d" % (cur, k, b))
         prev = sw
         cmds.append("EVOLVE %d %d" % (cur, 4 * n))
         cmds.append("DUMP %d seg%d" % (cur, si))
@@ -189,7 +208,7 @@ def flow_replay(exe, cases, jobs=14, timeout=1800):
     def work(chunk):
         cmds = []
         for i, c in chunk:
-            sc = flow_script(c["edges"][-1]["hist"], c["edges"][-1]["cfg"], c["mode"], c["t04"], c["move"])
+            sc = flow_script(c["edges"][-1]["hist"], c["edges"][-1]["cfg"], c["mode"], c["t04"], c["move"], order_seed=c.get("order", i), scale_e2=c.get("scale", 0))
             sc = [x.replace("DUMP 1 seg", "DUMP 1 c%d_" % i).replace("DUMP 2 seg", "DUMP 2 c%d_" % i) for x in sc]
             cmds += sc
         rc, lines, err = run_script(exe, cmds, timeout=timeout)
@@ -228,10 +247,12 @@ def flow_replay(exe, cases, jobs=14, timeout=1800):
                         fails.append("GSL reported a step failure in fixed-step mode %s for hist=%s" % (c["mode"], e["hist"]))
                         break
                     exp = expected_vector(e)
+                    if c.get("scale"):
+                        exp = [x * 2.0 ** c["scale"] for x in exp]
                     if len(vals) != len(exp):
                         res.append((i, si, float("inf"), 1.0, abs(t - tt)))
                         continue
-                    scale = max([1.0] + [abs(x) for x in exp])
+                    scale = max([1.0 if not c.get("scale") else 2.0 ** c["scale"]] + [abs(x) for x in exp])
                     err_ = max([abs(a - b) for a, b in zip(vals, exp)] or [0.0])
                     if any(x != x for x in vals):
                         err_ = float("inf")
